@@ -789,7 +789,7 @@ fn write_data(&mut self, value: &Data) {
                 self.write_str(s.as_str());
             }
             Data::Source(s) => {
-                self.write_u8(8);
+                self.write_u8(7);
                 self.write_str(s.source.as_str());
                 self.write_usize(s.source_id);
             }
